@@ -83,9 +83,9 @@ def run_encode(cases, **enc_kw):
     for c in live:
         c['impl_enc'] = impl_encode(c, **enc_kw)
     # the model is given exactly what the implementation's encoder is given
-    unc = [c for c in live if not c['compressed']]
-    lines = ['encu %s %s' % (B.subsets_to_model(c['py_vals']), c['toks']) for c in unc]
-    for c, o in zip(unc, lib.run_model_sharded(lines)):
+    lines = ['%s %s %s' % ('encc' if c['compressed'] else 'encu', B.subsets_to_model(c['py_vals']), c['toks'])
+             for c in live]
+    for c, o in zip(live, lib.run_model_sharded(lines)):
         c['model_enc'] = o
     return cases
 
@@ -114,9 +114,9 @@ def run_decode(cases, **dec_kw):
     live = [c for c in cases if c.get('impl_enc') and c['impl_enc'][0] == 'ok']
     for c in live:
         c['impl_dec'] = impl_decode(c, **dec_kw)
-    unc = [c for c in live if not c['compressed']]
-    lines = ['decu %d %s:%d %s' % (c['nsub'], c['impl_enc'][1] or '-', c['impl_enc'][2], c['toks']) for c in unc]
-    for c, o in zip(unc, lib.run_model_sharded(lines)):
+    lines = ['%s %d %s:%d %s' % ('decc' if c['compressed'] else 'decu', c['nsub'], c['impl_enc'][1] or '-',
+                                 c['impl_enc'][2], c['toks']) for c in live]
+    for c, o in zip(live, lib.run_model_sharded(lines)):
         c['model_dec'] = o
     return cases
 
